@@ -193,13 +193,27 @@ class C17(Check):
 
     def install(self, ctx):
         E.install_standard(ctx)
+        from checks import C05
+        C05.CHECK.install(ctx)
         ctx.extern_handlers.update({"orjson.dumps": x_orjson_dumps, "orjson.loads": x_orjson_loads,
                                     "json.dumps": x_std_dumps, "json.loads": x_std_loads})
         ctx.extern_values = {"orjson.OPT_INDENT_2": V.VInt(OPT_INDENT_2)}
 
+    def modular(self):
+        from checks import C05
+        # nested calls of loads inside the reader use its contract; loads itself is verified top-level below
+        return dict(C05.CHECK.modular())
+
+    def loop_invariants(self):
+        from checks import C05
+        return C05.CHECK.loop_invariants()
+
     def contracts(self):
+        from checks import C05
+        # "every encoded message is exactly one NDJSON frame" is only useful if the reader frames on '\n' alone (the
+        # fast backend writes U+0085/U+2028/U+2029 raw): the stdio reader's framing contract (C05) is re-verified here
         return [Dumps(True), Dumps(False), Loads(True, "str"), Loads(True, "bytes"), Loads(False, "str"),
-                Loads(False, "bytes")]
+                Loads(False, "bytes"), C05.StdoutReader()]
 
     def lemmas(self):
         return [Lemma("C17.lemma.all_four_backend_pairs_round_trip", lemma_round_trip)]
